@@ -233,10 +233,12 @@ def build(ctx):
                 bounds={"modes": nf, "cutoff": D, "pure": pure})
     nb = 3
     for kind in ("gaussian", "fock"):
-        for r_ in (1, 2):
+        for r_ in (1, 2, 3):
             for modes in itertools.permutations(range(nb), r_):
                 if not ctx.thorough and r_ == 2 and modes not in ((0, 1), (1, 0), (2, 0), (1, 2)):
                     continue
+                if not ctx.thorough and r_ == 3 and modes not in ((2, 0, 1), (1, 2, 0), (0, 2, 1)):
+                    continue        # the two cyclic orders (permutation != its inverse) and one transposition
                 ctx.add("%s.state(modes=%s)" % (kind, list(modes)), h_backend_state_modes, {"kind": kind, "modes": list(modes), "n": nb},
                         modules=lambda: state_modules() + C.gauss_modules() + C.fock_modules(),
                         functions=["GaussianBackend.state", "FockBackend.state"], bounds={"modes": nb, "requested": list(modes)})
